@@ -56,7 +56,10 @@ RULE_ADDED = (
               'd. '
               ' '
               'Round 13: PIN files whose name is as long as the file system allows; as an ordin'
-              "ary user, a PIN file of one's own in a directory one cannot write to. ")
+              "ary user, a PIN file of one's own in a directory one cannot write to. "
+              ' '
+              'Round 14: the PIN file touched, rewritten, replaced, created or removed by someb'
+              'ody else while a change is pending on a running manager. ')
 RULE = RULE + " " + RULE_ADDED.strip()
 ASSUMPTIONS = [
     "simulated device keeps its PIN in a state file written before it acknowledges (its NVM)",
